@@ -6,5 +6,5 @@ CONSTANTS
   MaxWrites = 3
   MaxOps = 22
   MaxErr = 2
-INVARIANTS Quiescent ChunkFits Tight
+INVARIANTS Quiescent ChunkFits Tight TypesOK RecsInOrder PayloadConserved BufferWhole SizeLaw
 CHECK_DEADLOCK FALSE
